@@ -17,9 +17,9 @@ def _c17_ints(s):
 
 def _c17_case(c):
     p = c.split(" ")
-    if p[0] in ("T", "A", "W", "V", "U", "u", "X", "Q", "Y", "y", "Z"):
+    if p[0] in ("T", "A", "W", "w", "V", "U", "u", "X", "Q", "Y", "y", "Z"):
         tok = None
-        if p[0] in ("Q", "Z"):
+        if p[0] in ("Q", "Z", "w"):
             tok, p = p[-2:], p[:-2]
         _, pred, mr, mn, mx, tbl, dflt, cn, kind, data, script, opts = p
         man = ""
@@ -297,7 +297,7 @@ CONFIG = {
         "custom Retryable predicates (harness and model): a status table, a rule for other statuses and one for transport errors, each retry / stop / fail; a failing predicate returns the transport's error for errors and its own error for responses (model: RPredErr); the theorems hold for every predicate",
         "blobStore.Push is modelled as POST (no body) then, on 202, PUT with the blob; the PUT passes through the auth client unchanged iff the POST's last request carried Authorization (resp.Request as set by the transport); empty token cache; Location handling, digest query and mounting are C13's",
         "strconv.ParseInt(s, 10, 64) is hand-modelled (parse_int64: sign, decimal digits, ParseUint's early return at the point of uint64 overflow, saturation to int64, 0 on syntax errors) and tied to the library by its own correspondence stream (op I: 3000 / 200000 random and boundary strings per run) besides the Retry-After pool",
-        "the token request of a Bearer challenge (fetchDistributionToken GET / fetchOAuth2Token POST through the same retrying client) is inside the model for the cold-cache auth client (auth_do_tok, op Q: scripted token service, answers other than 200 end Do with the token service's error, fetch before rewind as in the source); for the cold-cache blob push (blob_push_tok, op Z: the POST's and the PUT's token requests, the token service's script shared between them); in the warm-cache, mount and manifest-push flows (ops W V U X Y M I) the token service answers 200 at once -- C17_token_instant_refines proves that the coarser model is the finer one for such a token service; the JSON decoding of the token answer and the Www-Authenticate parsing (parseChallenge) are not modelled (fixed well-formed answers; C16's)",
+        "the token request of a Bearer challenge (fetchDistributionToken GET / fetchOAuth2Token POST through the same retrying client) is inside the model for the cold-cache auth client (auth_do_tok, op Q: scripted token service, answers other than 200 end Do with the token service's error, fetch before rewind as in the source); for the cold-cache blob push (blob_push_tok, op Z: the POST's and the PUT's token requests, the token service's script shared between them), for the manifest push through the auth client (op Q with M) and for the warm Bearer cache (auth_do_tokw_at, op w: the fresh token of the third send); in the remaining flows (ops A W V U X Y M I) the token service answers 200 at once -- C17_token_instant_refines proves that the coarser model is the finer one for such a token service; the JSON decoding of the token answer and the Www-Authenticate parsing (parseChallenge) are not modelled (fixed well-formed answers; C16's)",
         "translated from the sources on every run (layer T; a change of shape is reported, a change of content re-checks the proofs): GenericPolicy.Retry statement by statement (retrydecision), both branches of DefaultPredicate (statuspred, errpred), the arithmetic and the Retry-After constants of ExponentialBackoff (backoffexprs) and its jitter guard (guardedcall), the rewind decisions of auth.rewindRequestBody and of Transport.RoundTrip (rewindchain), the ctx.Err() re-check of the pause select (timerctxcheck), the status constants of auth.Client.Do / fetch*Token / blobStore.Push, completePushAfterInitialPost, Mount / manifestStore.push (statuscmps), the DefaultPolicy numbers; hand-written and tied by correspondence + AST-hash anchors (34 functions): the loop of Transport.RoundTrip, the re-send skeleton of auth.Client.Do, blob push / mount / manifest push composition",
         "the net/http facts below are re-checked at the start of every harness run against the toolchain in use (checkLibraryFacts: NewRequest's GetBody/ContentLength for *bytes.Reader, unknown readers, ReadClosers and nil; Clone shares Body and GetBody; context.DeadlineExceeded is a net.Error with Timeout(), context.Canceled is not; Client.Do passes Body/GetBody/ContentLength through)",
         "net/http: http.Client.Do passes the request to the RoundTripper unchanged for the status codes used (no 3xx), Request.Clone shares Body and GetBody, NewRequest installs GetBody for *bytes.Reader; url.Error unwrapping; context.DeadlineExceeded is a net.Error with Timeout()=true",
@@ -310,7 +310,7 @@ CONFIG = {
         "timing: the scripted base transport reads the body at once and then waits its latency on the fake clock of testing/synctest; the context never ends at the instant a timer of positive length fires (cancel instants odd, all other instants even); zero-length pauses and contexts that are over before the call are generated: there the timer and ctx.Done are ready together, and the current source (timer case re-checks ctx.Err(), fix 318fd40) ends the call either way; a request whose context has ended is answered by the scripted transport with the context's error at once, as net/http's transport does",
         "manifestStore.push buffering is modelled as 'a one-shot body becomes replayable iff the client is *auth.Client' and exercised with a non-indexed manifest media type; the digest/size verification of cas.Memory is C05's",
     ],
-    "level_text": "Coq theorems for every script of server behaviours, body kind/size, policy parameter set, attempt number and cancellation instant: each send makes between 1 and MaxRetry+1 attempts; every pause GenericPolicy.Retry computes and every pause the transport makes lies in [MinWait, MaxWait] (Retry-After on 429 honoured within them); a non-retryable answer (for DefaultPredicate: anything but 408/429/0/5xx and net.Error values reporting Timeout() -- Temporary() alone is not retried; both branches regenerated from policy.go) is returned after exactly one attempt; on every attempt of the retry transport and of the auth client's re-send the registry receives exactly the prefix it reads of the complete original body (the whole body when it reads to the end); a body without a working GetBody is sent once and the call ends with that answer (transport) or the rewind error (auth client); with a context ending at tc every attempt but the first of a send starts strictly before tc, the call is over at tc, and a pause the context ends in (or that starts after it ended: zero pauses, contexts over from the start) ends the call -- transport, auth client (all sends) and blob push -- with the context's error at that instant, without any hypothesis on the policy (defect: the original select could go on attempting after the context ended when the pause was zero; fixed 318fd40); on the whole trace every answer but the last was retryable and the call returns the last answer; Transport.RoundTrip and the whole cold auth stack (first send, token request, re-send) refine a stateless specification (spec_send / spec_auth: result, end instant and every attempt's instant and received bytes) for replayable bodies without cancellation; the token request of a Bearer challenge carries its whole form on every attempt, is bounded and cancellable like any send, and its failure ends Do; ExponentialBackoff is total on the current source (refuted with a witness for the original source, defect F7, fixed). The model is tied to the code by regenerated constants (DefaultPolicy numbers, DefaultPredicate status branch, jitter guard), by a correspondence run of real retry.Transport / auth.Client / Repository manifest push over a scripted transport under synctest's fake clock (exact attempt instants, per-attempt received bytes), and by an independent oracle.",
+    "level_text": "Coq theorems for every script of server behaviours, body kind/size, policy parameter set, attempt number and cancellation instant: each send makes between 1 and MaxRetry+1 attempts; every pause GenericPolicy.Retry computes and every pause the transport makes lies in [MinWait, MaxWait] (Retry-After on 429 honoured within them); a non-retryable answer (for DefaultPredicate: anything but 408/429/0/5xx and net.Error values reporting Timeout() -- Temporary() alone is not retried; both branches regenerated from policy.go) is returned after exactly one attempt; on every attempt of the retry transport and of the auth client's re-send the registry receives exactly the prefix it reads of the complete original body (the whole body when it reads to the end); a body without a working GetBody is sent once and the call ends with that answer (transport) or the rewind error (auth client); with a context ending at tc every attempt but the first of a send starts strictly before tc, the call is over at tc, and a pause the context ends in (or that starts after it ended: zero pauses, contexts over from the start) ends the call -- transport, auth client (all sends) and blob push -- with the context's error at that instant, without any hypothesis on the policy (defect: the original select could go on attempting after the context ended when the pause was zero; fixed 318fd40); on the whole trace every answer but the last was retryable and the call returns the last answer; Transport.RoundTrip, the whole cold auth stack (first send, token request, re-send) and the whole blob push (POST, PUT, their token requests) refine stateless specifications (spec_send / spec_auth / spec_push: result, end instant and every attempt's instant and received bytes) for replayable bodies without cancellation; the token request of a Bearer challenge carries its whole form on every attempt, is bounded and cancellable like any send, and its failure ends Do; ExponentialBackoff is total on the current source (refuted with a witness for the original source, defect F7, fixed). The model is tied to the code by regenerated constants (DefaultPolicy numbers, DefaultPredicate status branch, jitter guard), by a correspondence run of real retry.Transport / auth.Client / Repository manifest push over a scripted transport under synctest's fake clock (exact attempt instants, per-attempt received bytes), and by an independent oracle.",
     "level_note": "oracle-only (no theorem, not in the model): headers of re-sent requests (method, URL, Content-Type, Content-Length: clause request-changed), token requests in the warm-cache / blob-push / manifest-push flows (served at once there; modelled for the cold auth client, op Q), net/http's real transport (httptest, 1-8 MiB bodies, answers before the body is read), retry.DefaultPolicy end to end incl. cancellation, bodies over 64 KiB; net.Error classification of Go error values is declared per shape by the harness (self-checked) and abstracted to three booleans in the model; blob push modelled for an empty token cache and for a cache holding the push's own token (X); mount fallback (Y/y) as a blob push with a one-shot PUT; float64 arithmetic and the random jitter of ExponentialBackoff are modelled with exact rationals and an acceptor with rounding allowance; auth client modelled only as far as re-sending goes (cold cache, warm Bearer cache); net/http client plumbing, strconv.ParseInt and synctest are trusted/hand-modelled (see assumptions)",
     "technique": "machine-checked proof in Coq (loop invariants over the retry loop as a transition function; universal statements over policies, scripts, bodies, cancellation instants) + translator-regenerated constants/decision branch + model/implementation correspondence under testing/synctest fake time + independent oracle",
     "explanation": "theorems about Model/Retry.v (GenericPolicy.Retry, DefaultPredicate, ExponentialBackoff, Transport.RoundTrip loop as a transition function, auth.Client.Do re-sends for a cold and a warm Bearer token cache, manifest push buffering); harness under testing/synctest fake time: exhaustive behaviour sequences (length <= 3 quick / 5 thorough) x body kinds x three stacks, every odd cancellation instant of small scripts (cancel and deadline), random scripts with partial body reads, latencies, Retry-After values, GetBody failures, unknown Content-Length, several methods, preset Authorization, bodies up to 1 MiB (oracle only), retry.DefaultPolicy end to end (oracle only), manifest pushes with one-shot readers through auth and plain clients, blob pushes (POST then PUT; exhaustive sequences up to length 4 quick / 6 thorough and random) through auth and plain clients, 19 transport-error shapes with every (net.Error, Timeout, Temporary) combination wrapped and unwrapped, custom Retryable predicates (retry/stop/fail tables), a 300-case sample re-evaluated inside Coq with vm_compute in the thorough tier, and a sweep of policy decision points (attempt 0..80, backoff, factor, jitter incl. 0/negative/tiny, bounds incl. extreme, Retry-After incl. huge/garbage) judged by an acceptor proved complete for the model; body kind http.NoBody without GetBody, warm token caches (other scope key: W; the request's own key: V; within a blob push: X), zero-length pauses and contexts that ended before the call, a scripted token service (op Q, model-compared: GET and OAuth2 POST, exhaustive token-service sequences up to length 2/3; op K oracle only), mount fallback uploads (Y/y), strconv.ParseInt strings (I), real net/http transport scenarios; coverage floors per stream (harness exit 4 = layer R failure) and on the share of unjudged acceptor points; per-case watchdogs (synctest deadlock, wall clock, runaway request count: signature wedged); oracle clauses: request-changed, real-body-truncated, body-truncated, too-many-attempts, pause-bounds, nonretryable-retried, oneshot-resent, cancel-ignored/late/result, wrong-result, backoff-panic, maxretry-ignored, retry-after",
